@@ -82,6 +82,7 @@ o.before('{', '''
         v_ok(vstd::prelude::old(vf), old_range, new_range), v_ok(vstd::prelude::old(vb), old_range, new_range),
     ensures
         err_post(*vstd::prelude::old(d), *final(d), res),
+        (*final(d)).fobs() == (*vstd::prelude::old(d)).fobs(),
         seg_post(*vstd::prelude::old(d), *final(d), old, old_range, new, new_range, alg_lvl(deadline), false, Seq::<Ev>::empty(), res.is_ok()),
         final(vf).wf(), final(vf).offset == vstd::prelude::old(vf).offset, final(vb).wf(), final(vb).offset == vstd::prelude::old(vb).offset,
     decreases (old_range.end - old_range.start) + (new_range.end - new_range.start),
@@ -166,6 +167,7 @@ o.before('{', '''
     requires diff_pre(*vstd::prelude::old(d), old, old_range, new, new_range, alg_lvl(deadline)),
     ensures
         err_post(*vstd::prelude::old(d), *final(d), res),
+        (*final(d)).fobs() == (*vstd::prelude::old(d)).fobs(),
         seg_post(*vstd::prelude::old(d), *final(d), old, old_range, new, new_range, alg_lvl(deadline), false, fin::<D>(), res.is_ok()),
 ''', start=dd)
 i = o.find('d.finish()', dd)
@@ -186,6 +188,7 @@ o.before('{', '''
     requires diff_pre(*vstd::prelude::old(d), old, old_range, new, new_range, alg_lvl(None)),
     ensures
         err_post(*vstd::prelude::old(d), *final(d), res),
+        (*final(d)).fobs() == (*vstd::prelude::old(d)).fobs(),
         seg_post(*vstd::prelude::old(d), *final(d), old, old_range, new, new_range, alg_lvl(None), false, fin::<D>(), res.is_ok()),
 ''', start=df)
 o.save()
